@@ -39,6 +39,14 @@ SKIPPED = "skipped"  # case rejected (margin filter, precondition); counted
 ERROR = "error"  # harness problem -> inconclusive
 
 
+def case_bits(case, salt=""):
+    """Deterministic integer derived from the whole case description: use it for toggles that must not
+    correlate with parameters derived from the case index (i % k patterns)."""
+    import hashlib
+
+    return int(hashlib.sha1((json.dumps(case, sort_keys=True, default=str) + "|" + salt).encode()).hexdigest()[:12], 16)
+
+
 def result(
     status=HELD,
     *,
